@@ -150,6 +150,55 @@ theorem roundtrip_notification (p : Profile) (i : Input) (c s : Nat) (d : Bytes)
   have : domSmall i = true := by simp [domSmall, hm, hb, encodable]
   exact (master_small p i this).1
 
+/-! ## Flow Specification NLRI length (RFC 8955 §4.1): the two length forms -/
+
+theorem lor_240 : ∀ k, k < 16 → Nat.lor 240 k = 240 + k := by decide
+
+/-- **`read_nlri_len ∘ write_nlri_len = id` on 0 … 4095**, with the form (one octet below 240, two octets from
+    240 on) the RFC prescribes. -/
+theorem flowspec_len_roundtrip (n : Nat) (h : n ≤ 4095) (rest : Bytes) :
+    readFlowNlriLen (flowNlriLen n ++ rest) = some (n, if n < 240 then 1 else 2) := by
+  unfold flowNlriLen
+  by_cases h1 : n < 240
+  · simp [h1, readFlowNlriLen]
+  · have hk : n / 256 % 256 = n / 256 := Nat.mod_eq_of_lt (by omega)
+    have hl := lor_240 (n / 256) (by omega)
+    simp only [h1, if_false, hk, hl, List.cons_append, List.nil_append, readFlowNlriLen]
+    have h2 : ¬ (240 + n / 256 < 240) := by omega
+    simp only [h2, if_false]
+    congr 2
+    omega
+
+/-- **A rule of at most 4095 octets is written as a well-framed NLRI** (length in the right form, followed by exactly
+    that many octets), **a longer one is refused** (`Nlri::put_flowspec`). -/
+theorem flowspec_nlri_framed (body : Bytes) :
+    (body.length ≤ 4095 → putFlowspec body = .ok (flowNlriLen body.length ++ body) ∧
+        flowNlriFramed (flowNlriLen body.length ++ body) = true) ∧
+    (body.length > 4095 → putFlowspec body = .err) := by
+  have hlen : (flowNlriLen body.length).length = if body.length < 240 then 1 else 2 := by
+    unfold flowNlriLen; split <;> rfl
+  refine ⟨fun h => ⟨?_, ?_⟩, fun h => ?_⟩
+  · unfold putFlowspec
+    simp only [List.length_append, hlen]
+    split <;> simp <;> omega
+  · unfold flowNlriFramed
+    rw [flowspec_len_roundtrip _ h]
+    simp only [List.length_append, hlen]
+    have hd : (flowNlriLen body.length ++ body).drop (if body.length < 240 then 1 else 2) = body := by
+      rw [← hlen]; exact List.drop_left' rfl
+    rw [hd]
+    split <;> simp <;> omega
+  · unfold putFlowspec
+    simp only [List.length_append, hlen]
+    have : ¬ body.length < 240 := by omega
+    simp [this]; omega
+
+/-- without the refusal: the length of a 4096-octet rule does not survive `write_nlri_len` (it reads back as 0) -/
+theorem flowspec_len_4096 (rest : Bytes) : readFlowNlriLen (flowNlriLen 4096 ++ rest) = some (0, 2) := by
+  have h : flowNlriLen 4096 = [240, 0] := by decide +kernel
+  rw [h]
+  rfl
+
 /-- **AS4 round trip**, exact condition in the statement: no AS number above 65535, or the confederation
     segments lead the path and hold no such number (what RFC 6793 §4.2.3 can carry). -/
 theorem as4_roundtrip (segs : List Seg) (hok : SegsOk 4 segs)
